@@ -367,7 +367,13 @@ func vfListDir(dir string) []string {
 	var out []string
 	for _, e := range ents {
 		n := e.Name()
-		if e.IsDir() {
+		isDir := e.IsDir()
+		if e.Type()&os.ModeSymlink != 0 {
+			if fi, err := os.Stat(filepath.Join(dir, n)); err == nil && fi.IsDir() {
+				isDir = true
+			}
+		}
+		if isDir {
 			n += "/"
 		}
 		out = append(out, n)
